@@ -170,6 +170,8 @@ def rule_c(repo, chk):
     m = repo.module(MANAGER)
     n_sites = 0
     for f in m.all_functions:
+        if getattr(f, 'absorbed', False):
+            continue        # a helper that only exists inlined in its callers (sa/inline.py): judged there
         for n in walk_no_defs(f.node):
             if isinstance(n, ast.Assign) and pat.stores_attr(n, 'errors', True):
                 n_sites += 1
@@ -223,7 +225,17 @@ def rule_d(repo, chk, d, t, e):
         chk.ob('d', e.ref, 'an error passed to _eventDone is recorded on the event before the waiting-handlers gate', bad is None and not no_err_test,
                loc(e, stores[0].ast), path=pat.path_lines(bad) if bad else None, discr='record-before-gate')
         for n in succ:
-            q = pat.guarded_by(g, n, pat.test_edge(lambda tt, pol: pol == 'F' and src(tt) == f'{ev}.{rec_attr}'))
+            def no_failure(tt, pol):
+                if pol != 'F':
+                    return False
+                if src(tt) == f'{ev}.{rec_attr}':
+                    return True
+                # a local computed as `… or event.<record>`: false only if the record is false
+                if isinstance(tt, ast.Name):
+                    vs = pat.deref(e, tt)
+                    return bool(vs) and all(isinstance(x, ast.BoolOp) and isinstance(x.op, ast.Or) and any(src(o) == f'{ev}.{rec_attr}' for o in x.values) for x in vs)
+                return False
+            q = pat.guarded_by(g, n, pat.test_edge(no_failure))
             chk.ob('d', e.ref, '<name>_success is fired only when no failure is recorded for the event', q is None, loc(e, n.ast),
                    path=pat.path_lines(q) if q else None, discr='success-reads-record')
         # the record defaults to False for every event (class attribute)
@@ -433,21 +445,31 @@ def rule_g(repo, chk):
             ok = ok and p is None
     chk.ob('g', f.ref, 'the second result turns the stored value into a list [first, second]', ok, loc(f, f.node), discr='second-makes-list')
     # every path stores the value somewhere
-    p = Q.escapes(g, [g.entry], lambda n: n in first or n in apps)
+    wrap_both = [n for n in wrap if v in Q.names_used(n.ast.value)]       # `[self._value, value]` stores the new result itself
+    p = Q.escapes(g, [g.entry], lambda n: n in first or n in apps or n in wrap_both)
     chk.ob('g', f.ref, 'every call stores the value (as such or appended)', p is None, loc(f, f.node), path=pat.path_lines(p) if p else None, discr='always-stored')
     upd = f.nested.get('update')
     ok = upd is not None and any(call_name(c) == 'update' and [src(a) for a in c.args] == ['self', v] for c in calls_in(f.node))
-    chk.ob('g', f.ref, 'flags are propagated after storing (update(self, value))', ok, loc(f, f.node), discr='flags-updated')
-    if upd is not None:
-        chk.touch(upd)
-        gu = upd.cfg()
-        o, vv = upd.params
-        res = [n for n in gu.nodes if n.kind == 'stmt' and o in pat.stores_attr(n.ast, 'result', True)]
+    # the same propagation written as a loop over the parent chain inside setValue itself is accepted
+    inline_form = upd is None and any(isinstance(n, ast.While) for n in walk_no_defs(f.node)) and any(pat.stores_attr(n, 'result', True) for n in walk_no_defs(f.node) if isinstance(n, ast.Assign))
+    chk.ob('g', f.ref, 'flags are propagated after storing (update(self, value), or the equivalent walk up the parent chain)', ok or inline_form, loc(f, f.node), discr='flags-updated')
+    if upd is not None or inline_form:
+        fn = upd if upd is not None else f
+        chk.touch(fn)
+        gu = fn.cfg()
+        if upd is not None:
+            o, vv = upd.params
+            res = [n for n in gu.nodes if n.kind == 'stmt' and o in pat.stores_attr(n.ast, 'result', True)]
+        else:
+            vv = v
+            res = [n for n in gu.nodes if n.kind == 'stmt' and pat.stores_attr(n.ast, 'result', True)]
+            o = (pat.stores_attr(res[0].ast, 'result', True) or ['self'])[0] if res else 'self'
+            upd = fn
         okr = bool(res) and all(pat.guarded_by(gu, n, pat.test_edge(lambda tt, pol: pat.fact_matches(pat.compare_fact(tt, pol), vv, ('is not', '!='), 'None'))) is None for n in res)
         edges = [e for n in gu.nodes if n.kind == 'test' for e in n.succ if pat.fact_matches(pat.compare_fact(n.ast, e.kind), vv, ('is not', '!='), 'None')]
         okr = okr and bool(edges) and all(e.dst in res or Q.escapes(gu, [e.dst], lambda n: n in res) is None for e in edges)
         chk.ob('g', upd.ref, 'a non-None plain result marks the value as having a result (None does not)', okr, loc(upd, upd.node), discr='result-flag')
-        par = [n for n in gu.nodes if n.kind == 'stmt' and f'{o}.parent' in pat.stores_attr(n.ast, 'errors')]
+        par = [n for n in gu.nodes if n.kind == 'stmt' and any(r == f'{o}.parent' or pat.expand_alias(fn, n, r) .endswith('.parent') for r in pat.stores_attr(n.ast, 'errors'))]
         chk.ob('g', upd.ref, 'flags are propagated to the parent value', bool(par), loc(upd, upd.node), discr='parent-flags', nontrivial=False)
 
 
